@@ -11,6 +11,7 @@ import (
 	"github.com/moorara/algo/parser/lr"
 
 	"github.com/gardenbed/emerge/internal/ebnf/parser/spec"
+	"github.com/gardenbed/emerge/verif/cli"
 	"github.com/gardenbed/emerge/verif/ev"
 	"github.com/gardenbed/emerge/verif/ref/ebnfref"
 	"github.com/gardenbed/emerge/verif/ref/lrref"
@@ -141,6 +142,48 @@ type input struct {
 	N    int
 }
 
+var cliCalls int
+
+func viaCLI(r *ev.Run, text string, terr error, in input) {
+	t, err := cli.Get()
+	if err != nil {
+		ev.Fatal("%v", err)
+	}
+	res := t.Run("f.g", text, "g", "-out=.")
+	r.Add("cli_runs", 1)
+	switch {
+	case res.Code == -2:
+		r.Report("", "the emerge binary does not exit within 120 s\n"+text, in)
+	case res.Trace:
+		r.Add("cli_traces_left_to_C14", 1)
+	case terr != nil:
+		// the heading of the library's report must be on stderr (its body may legitimately differ between two processes
+		// for the grammars of the known findings dep-lalr-nonproductive-crash / C15 dep-lalr-crash-depends-on-order)
+		longest := ""
+		for _, l := range strings.Split(terr.Error(), "\n") {
+			if l = strings.TrimLeft(strings.TrimSpace(l), "•*- "); l != "" {
+				longest = l
+				break
+			}
+		}
+		switch {
+		case res.Code == 0 || res.Announced:
+			r.Report("", fmt.Sprintf("Spec.LALRParsingTable reports %q but the emerge binary exits with status %d (success announced: %v)\n%s", head(terr.Error()), res.Code, res.Announced, text), in)
+		case !strings.Contains(res.Stderr, longest):
+			r.Report("", fmt.Sprintf("Spec.LALRParsingTable reports %q; the emerge binary exits with status %d but its stderr does not carry the report: %q\n%s", head(terr.Error()), res.Code, head(cli.StripEmoji(res.Stderr)), text), in)
+		}
+	case res.Code != 0 || !res.Announced || len(res.Files) != 6:
+		r.Report("", fmt.Sprintf("Spec.LALRParsingTable builds a table but the emerge binary exits with status %d (success announced: %v, files %v): %q\n%s", res.Code, res.Announced, res.Files, head(cli.StripEmoji(res.Stderr)), text), in)
+	}
+}
+
+func head(s string) string {
+	if len(s) > 300 {
+		return s[:300] + "…"
+	}
+	return s
+}
+
 // language of the harness grammar up to length n (reference fixpoint over ebnfref semantics)
 func language(g *gram, n int) ebnfref.Lang {
 	sp := &ebnfref.Spec{Name: "g"}
@@ -201,6 +244,12 @@ func checkGrammar(r *ev.Run, g *gram, family string, n int, extra [][]string, ex
 		}
 		r.Add("rejected_by_spec_parse_left_to_C07", 1)
 		return
+	}
+	// observation at the command line: the tool must end the way the library does - a table error (conflict report)
+	// means a non-zero exit status with the report on stderr, a table means the package is announced
+	cliCalls++
+	if !r.Quick() || cliCalls%4 == 0 {
+		viaCLI(r, text, terr, in)
 	}
 	ref := lrref.New("start", g.prods, g.levels).Build()
 	conflict := len(ref.Conflicts) > 0
@@ -635,7 +684,7 @@ func main() {
 		r.Finish()
 	}
 	if r.Fork(16) {
-		r.Set("rule", "textbook families; every grammar with up to the production bound over start, x, \"a\", \"b\" with bodies up to the length bound; operator grammars over 2-3 binary and one prefix operator under every ordered partition into levels x every @left/@right assignment x every @left/@right/@none assignment (and missing-level variants, a directive naming only unused terminals inserted at every position, and for every operator the rule handle of its production - which contains a terminal and is therefore inert - as a directive of its own at every position and instead of the operator's terminal handle); prefix / postfix / dangling-else shapes, whose only conflicts are between different handles, under every partition x assignment; each accepted grammar is driven on every terminal string up to the length bound (and every operator expression up to the operator bound); non-trivial = grammar for which a table is built; distinct by text")
+		r.Set("rule", "textbook families; every grammar with up to the production bound over start, x, \"a\", \"b\" with bodies up to the length bound (those with a conflict also under six directive lists over their terminals, so that shift/reduce and reduce/reduce conflicts meet declared levels); operator grammars over 2-3 binary and one prefix operator under every ordered partition into levels x every @left/@right assignment x every @left/@right/@none assignment (and missing-level variants, a directive naming only unused terminals inserted at every position, and for every operator the rule handle of its production - which contains a terminal and is therefore inert - as a directive of its own at every position and instead of the operator's terminal handle); prefix / postfix / dangling-else shapes, whose only conflicts are between different handles, under every partition x assignment; every grammar (quick: every fourth) is also given to the real binary as a file, which must end the way the library does (conflict report on stderr and a non-zero status, or the announced package of six files); each accepted grammar is driven on every terminal string up to the length bound (and every operator expression up to the operator bound); non-trivial = grammar for which a table is built; distinct by text")
 		r.Set("evaluations", r.Get("grammars"))
 		r.Finish()
 	}
@@ -672,9 +721,37 @@ func main() {
 		maxProds = 4
 	}
 	r.Set("bound_productions", maxProds)
+	// every generated grammar that has a conflict is given again with directives over its two terminals - one level,
+	// two levels in both orders, left and right: shift/reduce AND reduce/reduce conflicts whose handles all have a level
+	// (a reduce/reduce conflict inside one level stays a conflict; across two levels the earlier level wins)
+	levelVariants := [][]opLevel{
+		{{assoc: "left", ops: []string{"a", "b"}}},
+		{{assoc: "right", ops: []string{"a", "b"}}},
+		{{assoc: "left", ops: []string{"a"}}, {assoc: "left", ops: []string{"b"}}},
+		{{assoc: "right", ops: []string{"b"}}, {assoc: "left", ops: []string{"a"}}},
+		{{assoc: "none", ops: []string{"a"}}, {assoc: "right", ops: []string{"b"}}},
+		{{assoc: "left", ops: []string{"a"}}},
+	}
 	generated(maxProds, false, func(g *gram) {
 		if mine() {
 			checkGrammar(r, g, "generated", n, nil, nil)
+			if len(lrref.New("start", g.prods, nil).Build().Conflicts) == 0 {
+				return
+			}
+			for _, lv := range levelVariants {
+				g2 := &gram{prods: g.prods}
+				for _, l := range lv {
+					rl := lrref.Level{Assoc: l.assoc, Terms: map[string]bool{}}
+					line := "@" + l.assoc
+					for _, o := range l.ops {
+						rl.Terms[o] = true
+						line += ` "` + o + `"`
+					}
+					g2.levels = append(g2.levels, rl)
+					g2.lines = append(g2.lines, line)
+				}
+				checkGrammar(r, g2, "generated_with_levels", n, nil, nil)
+			}
 		}
 	})
 	if !quick {
@@ -846,6 +923,11 @@ func main() {
 			})
 		}
 	}
+	r.OnFinish(func() {
+		if t, err := cli.Get(); err == nil {
+			t.Close()
+		}
+	})
 	r.Assume("conflict detection and table contents are decided by an independent canonical-LR(1)-merged-by-core construction with the documented resolution rule (ref/lrref); operator grammars are additionally compared with a precedence-climbing parser")
 	r.Assume("the table builder itself is dependency code (moorara/algo); emerge's contribution is the plumbing from directives to levels and the error surfacing")
 	r.Finish()
